@@ -584,6 +584,11 @@ fn replay(case: &Value, l: &mut Local) {
     let i = case["fault_index"].as_u64().unwrap_or(0);
     let buffer = if b < 0 { usize::MAX } else { b as usize };
     let f = if buffer == usize::MAX { None } else { Some(Faults::new(valid_buffer(buffer), true)) };
+    // the description identifies a fault across changes of the fault menu; the index is a fallback
+    let i = match (&f, case["fault"].as_str()) {
+        (Some(f), Some(d)) => (0..f.total()).find(|&k| f.make(k).0 == d).unwrap_or(i),
+        _ => i,
+    };
     let res = run_shard(buffer, i, i + 1);
     record(buffer, f.as_ref(), res, l);
 }
@@ -593,6 +598,18 @@ fn main() {
     if args.get(1).map(|s| s.as_str()) == Some("child") {
         let b = if args[2] == "hdr" { usize::MAX } else { args[2].parse().unwrap() };
         child(b, args[3].parse().unwrap(), args[4].parse().unwrap());
+        return;
+    }
+    if args.get(1).map(|s| s.as_str()) == Some("describe") {
+        // c10 describe <buffer> <substring>: print the indices of the faults whose description matches
+        let b: usize = args[2].parse().unwrap();
+        let f = Faults::new(valid_buffer(b), true);
+        for i in 0..f.total() {
+            let (d, _) = f.make(i);
+            if d.contains(&args[3]) {
+                println!("{} {}", i, d);
+            }
+        }
         return;
     }
     vh::run_main("C10", check, replay)
